@@ -166,7 +166,7 @@ def run(prog, rep):
     def on_widen(st, hdr):
         # obligations are per released node: check what was released in the iteration that just ended, then reset
         check(st)
-        for k in ("kd", "vd", "freed", "stores", "pstores", "helpers", "nstores"):
+        for k in ("kd", "vd", "freed", "stores", "pstores", "helpers", "nstores", "nlink"):
             st.tags.pop(k, None)
 
     def check(st):
